@@ -39,6 +39,9 @@ ESCAPE_CODES: Dict[str, str] = {
     "'": "'",
 }
 
+# the characters lua treats as whitespace; str.isspace accepts many more
+WHITESPACE: str = " \f\n\r\t\v"
+
 NumberTuple = Tuple[bool, Optional[str], Optional[str], Optional[str], Optional[str]]
 
 
@@ -129,7 +132,7 @@ class Lexer:
         return None
 
     def skip_whitespace(self) -> None:
-        while self.current_char and self.current_char.isspace():
+        while self.current_char and self.current_char in WHITESPACE:
             self.advance()
 
     def _is_long_bracket(self) -> bool:
@@ -383,7 +386,7 @@ class Lexer:
         while self.current_char:
             self.last_hint = None
             # skip whitespace
-            if self.current_char.isspace():
+            if self.current_char in WHITESPACE:
                 self.skip_whitespace()
                 continue
 
